@@ -2,6 +2,7 @@ SPECIFICATION TSpec
 CONSTANTS
     Orders = {}
     Names = {}
+    EventNames = {}
     ReqShapes = {}
     InvChoices = {}
     CfgChoices = {}
@@ -9,5 +10,4 @@ CONSTANTS
     MaxResv = 0
     MaxSteps = 0
     Impl = "intended"
-INVARIANT Done
 CHECK_DEADLOCK FALSE
